@@ -18,8 +18,11 @@ import (
 	"encoding/json"
 	"fmt"
 	"log/slog"
+	"maps"
 	"net/http"
 	"slices"
+	"time"
+	"unicode/utf8"
 
 	"github.com/bartventer/httpcache/store/driver"
 )
@@ -108,8 +111,8 @@ func (r *responseCache) GetRefs(urlKey string) (ResponseRefs, error) {
 	if err != nil {
 		return nil, err
 	}
-	var refs ResponseRefs
-	if unmarshalErr := json.Unmarshal(data, &refs); unmarshalErr != nil {
+	var stored []*storedRef
+	if unmarshalErr := json.Unmarshal(data, &stored); unmarshalErr != nil {
 		return nil, newCacheError(
 			unmarshalErr,
 			"GetRefs",
@@ -117,12 +120,23 @@ func (r *responseCache) GetRefs(urlKey string) (ResponseRefs, error) {
 		)
 	}
 	// A corrupted index may decode to null elements; they reference nothing.
-	refs = slices.DeleteFunc(refs, func(ref *ResponseRef) bool { return ref == nil })
+	stored = slices.DeleteFunc(stored, func(ref *storedRef) bool { return ref == nil })
+	var refs ResponseRefs
+	if stored != nil {
+		refs = make(ResponseRefs, len(stored))
+		for i, ref := range stored {
+			refs[i] = ref.toRef()
+		}
+	}
 	return refs, nil
 }
 
 func (r *responseCache) SetRefs(urlKey string, refs ResponseRefs) error {
-	data, err := json.Marshal(refs)
+	stored := make([]*storedRef, len(refs))
+	for i, ref := range refs {
+		stored[i] = newStoredRef(ref)
+	}
+	data, err := json.Marshal(stored)
 	if err != nil {
 		return newCacheError(
 			err,
@@ -131,4 +145,71 @@ func (r *responseCache) SetRefs(urlKey string, refs ResponseRefs) error {
 		)
 	}
 	return r.cache.Set(urlKey, data)
+}
+
+// storedRef is the JSON form of a [ResponseRef]. encoding/json replaces bytes
+// that are not valid UTF-8 with U+FFFD, which would change a field value that
+// contains obs-text or a URL key with raw non-ASCII bytes: the record would no
+// longer match the request it was stored for. Such strings are kept verbatim
+// in the raw fields, which JSON encodes as base64.
+type storedRef struct {
+	ResponseID      string            `json:"id"`
+	Vary            string            `json:"vary"`
+	VaryResolved    map[string]string `json:"vary_resolved"`
+	ReceivedAt      time.Time         `json:"received_at,omitzero"`
+	ResponseIDRaw   []byte            `json:"id_raw,omitempty"`
+	VaryRaw         []byte            `json:"vary_raw,omitempty"`
+	VaryResolvedRaw map[string][]byte `json:"vary_resolved_raw,omitempty"`
+}
+
+func newStoredRef(ref *ResponseRef) *storedRef {
+	if ref == nil {
+		return nil
+	}
+	s := &storedRef{
+		ResponseID:   ref.ResponseID,
+		Vary:         ref.Vary,
+		VaryResolved: ref.VaryResolved,
+		ReceivedAt:   ref.ReceivedAt,
+	}
+	if !utf8.ValidString(ref.ResponseID) {
+		s.ResponseID, s.ResponseIDRaw = "", []byte(ref.ResponseID)
+	}
+	if !utf8.ValidString(ref.Vary) {
+		s.Vary, s.VaryRaw = "", []byte(ref.Vary)
+	}
+	for name, value := range ref.VaryResolved {
+		if utf8.ValidString(value) {
+			continue
+		}
+		if s.VaryResolvedRaw == nil {
+			s.VaryResolved = maps.Clone(ref.VaryResolved)
+			s.VaryResolvedRaw = make(map[string][]byte)
+		}
+		delete(s.VaryResolved, name)
+		s.VaryResolvedRaw[name] = []byte(value)
+	}
+	return s
+}
+
+func (s *storedRef) toRef() *ResponseRef {
+	ref := &ResponseRef{
+		ResponseID:   s.ResponseID,
+		Vary:         s.Vary,
+		VaryResolved: s.VaryResolved,
+		ReceivedAt:   s.ReceivedAt,
+	}
+	if s.ResponseIDRaw != nil {
+		ref.ResponseID = string(s.ResponseIDRaw)
+	}
+	if s.VaryRaw != nil {
+		ref.Vary = string(s.VaryRaw)
+	}
+	for name, value := range s.VaryResolvedRaw {
+		if ref.VaryResolved == nil {
+			ref.VaryResolved = make(map[string]string, len(s.VaryResolvedRaw))
+		}
+		ref.VaryResolved[name] = string(value)
+	}
+	return ref
 }
